@@ -333,6 +333,24 @@ m('lockshared-ignores-foreign-x', ['C16', 'C04'], LK, '''	slockSet := txn.GetSha
 	if txnID, ok := lockManager.exclusiveLockTable[*rid]; ok && txnID != txn.GetTransactionID() && len(slockSet) > 100 {
 		return false
 	} else {''', ['C16-R5 [LockShared:'])
+m('flushpage-clears-dirty-after-write', ['C13'], BPM, '''		data := pg.Data()
+		pg.SetIsDirty(false)
+
+		err := b.diskManager.WritePage(pageID, data[:])
+		if err != nil {
+			return false
+		}
+		return true''', '''		data := pg.Data()
+
+		err := b.diskManager.WritePage(pageID, data[:])
+		if err != nil {
+			return false
+		}
+		pg.SetIsDirty(false)
+		return true''', ['C13-R6 [FlushPage:dirty-cleared-before-write]'])
+m('disk-offset-32bit-product', ['C13'], 'lib/storage/disk/disk_manager_impl.go', '''	offset := int64(pageID) * int64(common.PageSize)
+	_, errSeek := d.db.Seek(offset, io.SeekStart)''', '''	offset := int64(pageID * common.PageSize)
+	_, errSeek := d.db.Seek(offset, io.SeekStart)''', ['C13-R7 [offset-64bit:(*storage/disk.DiskManagerImpl).WritePage'])
 # drop the one that needs a helper that does not exist
 M = [x for x in M if x['id'] != 'insert-executor-unlocks-early']
 os.chdir(os.path.dirname(os.path.abspath(__file__)) + '/..')
